@@ -464,8 +464,15 @@ def run_loadcase(case):
         md = mesh.dim
         region = fem.RegionQuad(mesh) if md == 2 else fem.RegionHexahedron(mesh)
         conts = [("u", fem.FieldContainer([fem.Field(region, dim=md)])), ("u,p,J", fem.FieldsMixed(region, n=3))]
+        # fields whose number of components differs from the mesh dimension (three components on a plane mesh, two on a 3D
+        # mesh): the planes are planes of the MESH, the components are components of the FIELD
+        if lc in ("uniaxial", "biaxial"):
+            conts.append((f"u{5 - md}-on-{md}d", fem.FieldContainer([fem.Field(region, dim=5 - md)])))
+            conts.append((f"u{5 - md}-on-{md}d,s", fem.FieldContainer([fem.Field(region, dim=5 - md), fem.Field(region, dim=1)])))
         for clab, field in conts:
             f = field.fields[0]
+            fd = f.dim
+            nax = min(md, fd)
             f.values = zoo.offarr(seed, 500, f.values.shape) + 0.0
             X = mesh.points
             idx, off = ref_index(field)
@@ -498,7 +505,7 @@ def run_loadcase(case):
                     c.nontrivial.append(sub)
 
             def symtable(sym, offs=(0.0, 0.0, 0.0)):
-                return [(a, offs[a], a, 0.0) for a in range(md) if sym[a]]
+                return [(a, offs[a], a, 0.0) for a in range(nax) if sym[a]]
 
             if lc == "symmetry":
                 for axes in itertools.product((False, True), repeat=3):
@@ -515,7 +522,7 @@ def run_loadcase(case):
                 c.eq(f"{glab}/{clab}/extend", "symmetry(bounds=...) extends the given dict", sorted(ext.keys()), ["symx", "symy"])
             elif lc == "uniaxial":
                 syms = [True, False, (True, False, True), (False, True, False)]
-                for axis in range(md):
+                for axis in range(nax):
                     for clamped in (False, True):
                         for sym in syms:
                             s3 = (sym, sym, sym) if isinstance(sym, bool) else sym
@@ -529,13 +536,13 @@ def run_loadcase(case):
                                 if not s3[axis]:
                                     T.append((axis, left, axis, 0.0))
                                 if clamped:
-                                    T += [(axis, right, cc, 0.0) for cc in range(md) if cc != axis]
+                                    T += [(axis, right, cc, 0.0) for cc in range(fd) if cc != axis]
                                     if not s3[axis]:
-                                        T += [(axis, left, cc, 0.0) for cc in range(md) if cc != axis]
+                                        T += [(axis, left, cc, 0.0) for cc in range(fd) if cc != axis]
                                 T.append((axis, right, axis, move))
                                 judge(f"{glab}/{clab}/axis={axis}/clamped={clamped}/sym={sym}/lr={lr}", res, T)
             elif lc == "biaxial":
-                pairs = [(0, 1), (1, 0)] + ([(0, 2), (2, 1)] if md == 3 else [])
+                pairs = [(0, 1), (1, 0)] + ([(0, 2), (2, 1)] if nax == 3 else [])
                 for axes in pairs:
                     for clampes in itertools.product((False, True), repeat=2):
                         for sym in (True, False, (True, False, True), (False, True, False)):
@@ -552,9 +559,9 @@ def run_loadcase(case):
                                         T.append((ax, L[i], ax, -moves[i]))
                                 for i, ax in enumerate(axes):
                                     if clampes[i]:
-                                        T += [(ax, R[i], cc, 0.0) for cc in range(md) if cc != ax]
+                                        T += [(ax, R[i], cc, 0.0) for cc in range(fd) if cc != ax]
                                         if not s3[ax]:
-                                            T += [(ax, L[i], cc, 0.0) for cc in range(md) if cc != ax]
+                                            T += [(ax, L[i], cc, 0.0) for cc in range(fd) if cc != ax]
                                     T.append((ax, R[i], ax, moves[i]))
                                 judge(f"{glab}/{clab}/axes={axes}/clampes={clampes}/sym={sym}/lefts={lefts}/rights={rights}", res, T)
             elif lc == "shear":
